@@ -158,7 +158,7 @@ func runC02(o *cli.Opts, run *evid.Run) {
 	}
 	run.Stage("masks")
 	// full circuits
-	full := []dim{{3, 2}, {1, 1}}
+	full := []dim{{3, 2}, {1, 1}, {31, 1}} // (31,1): the documented maximum depth of the deletion circuit
 	if o.Thorough() {
 		full = []dim{{3, 2}, {1, 1}, {2, 3}, {31, 1}, {4, 18}, {10, 3}, {30, 2}}
 	}
